@@ -4,3 +4,4 @@ CONSTANTS
   Bases = {1, 2, 3, 4}
   Types = {"hex", "bin", "srec", "elf", "wdc", "uf2"}
 INVARIANT Emit
+INVARIANT EmitCpu
